@@ -13,6 +13,11 @@
     watchdog dispatcher thread is running), `pending` (file-system events not yet dispatched, FIFO),
     `watch` (one entry per `TokenFile.watch()` thread waiting for the end of a foreign job).
 
+    `TokenFile.delete()` is modelled as an atomic delete-if-exists.  The real method tests `is_file()` and
+    then calls `unlink()`; a watcher of another process deleting in between is linearised as
+    `reclaim` followed by a `release` that finds nothing (the check exercises that window on the real
+    code with the `racedel` fault; on the current source the second `unlink` raises: finding F26).
+
     One step = one critical section of the real code (or one half of `acquire`, which is split at
     the point between `open` and `write` of `TokenFile.create`), or one environment event. -/
 namespace XpmVerif.FileTokens
